@@ -808,4 +808,31 @@ example : annotConsistent (exVocab ⟨some 11, some [.sym "B", .known 3]⟩) = f
 example : annotConsistent (exVocab ⟨some 1, some [.known 3]⟩) = false := by decide             -- wrong rank
 example : consistentStats (exVocab ⟨some 1, some [.sym "B", .known 3]⟩) = (2, 2) := by decide
 
+/-! The full-strength statement "every annotation of every export holds for some binding" is REFUTED on the
+    unchanged tree: `to_onnx` of two scans of lengths 5 and 100 declares both outputs
+    `[JAX2ONNX_DYNAMIC_DIM_SENTINEL]`; ONNX Runtime returns shapes `(5,)` and `(100,)`.  No binding makes
+    both annotations true (known finding F-C08-dynamic-sentinel). -/
+theorem sentinel_annotations_refuted :
+    ¬ ∃ σ : Binding,
+        annotHolds σ ⟨some 1, some [.sym "JAX2ONNX_DYNAMIC_DIM_SENTINEL"]⟩ ⟨1, [5]⟩ ∧
+        annotHolds σ ⟨some 1, some [.sym "JAX2ONNX_DYNAMIC_DIM_SENTINEL"]⟩ ⟨1, [100]⟩ := by
+  rintro ⟨σ, h1, h2⟩
+  have a := h1.2 _ rfl
+  have b := h2.2 _ rfl
+  cases a with
+  | cons ha _ =>
+    cases b with
+    | cons hb _ =>
+      simp only [dimHolds] at ha hb
+      omega
+
+/-- … while with `unk` instead of the shared symbol both annotations hold (what the sentinel means) -/
+example : ∀ σ : Binding, annotHolds σ ⟨some 1, some [.unk]⟩ ⟨1, [5]⟩ ∧ annotHolds σ ⟨some 1, some [.unk]⟩ ⟨1, [100]⟩ := by
+  intro σ
+  refine ⟨⟨?_, ?_⟩, ⟨?_, ?_⟩⟩
+  · intro d hd; cases hd; rfl
+  · intro ds hds; cases hds; exact .cons trivial .nil
+  · intro d hd; cases hd; rfl
+  · intro ds hds; cases hds; exact .cons trivial .nil
+
 end J2O.C08
